@@ -35,6 +35,7 @@ struct target
     virtual std::string caps(std::size_t size) = 0;
     virtual void move_construct() = 0;
     virtual void move_assign(bool used) = 0;
+    virtual bool assign_into_moved_from() = 0;
     virtual void destroy() = 0;
     virtual void report_reserved() = 0;
 };
@@ -83,6 +84,12 @@ struct target_impl : target
         A* n = make(slot());
         if (used) { try { void* p = traits::allocate_node(*n, 1, 1); (void)p; } catch (...) {} }
         *n = std::move(*a); graveyard.push_back(a); a = n;
+    }
+    bool assign_into_moved_from() override
+    {
+        if (graveyard.empty()) return false;
+        A* g = graveyard.back(); graveyard.pop_back();
+        A* f = make(slot()); *g = std::move(*f); g->~A(); graveyard.push_back(f); return true;
     }
     void destroy() override { if (a) a->~A(); a = nullptr; for (auto g : graveyard) g->~A(); graveyard.clear(); }
 };
@@ -157,7 +164,7 @@ int main()
         return true;
     };
     auto sweep = [&](const char* when) { for (auto& h : hs_) if (h.live) checkpat(h, when); };
-    long opno = 0;
+    long opno = 0; bool last_null = false; long drain_left = 0;
     std::vector<std::string> pending;
     while (true)
     {
@@ -165,6 +172,15 @@ int main()
         else if (!std::getline(std::cin, line)) break;
         std::istringstream is(line); std::string op; is >> op;
         if (op.empty()) continue;
+        if (op == "drain")
+        {   // single-node try_ requests until the allocator refuses (rewritten into ordinary tn lines)
+            std::size_t size = 8; is >> size;
+            if (drain_left == 0) { drain_left = 6000; last_null = false; }
+            if (last_null || --drain_left == 0) { drain_left = 0; last_null = false; continue; }
+            char b[64]; std::snprintf(b, sizeof b, "tn %zu 1", size);
+            pending.insert(pending.begin(), line); pending.insert(pending.begin(), std::string(b));
+            continue;
+        }
         if (op == "d" || op == "dall")
         {   // selector ops are rewritten into canonical dn/da/tdn/tda lines
             std::vector<std::size_t> livei;
@@ -196,6 +212,8 @@ int main()
             char b[160];
             if (e) std::snprintf(b, sizeof b, "throw %s oom=%ld bad=%ld", e, hc().oom - oom0, hc().bad_size - bad0);
             else if (!p) std::snprintf(b, sizeof b, "null");
+            last_null = !e && !p;
+            if (e || !p) {}
             else
             {
                 handle h{p, c, size, al, arr, next_pat, true}; next_pat = next_pat * 29 + 3;
@@ -239,6 +257,7 @@ int main()
         else if (op == "failfrom") { long k; is >> k; U.fail_from = k < 0 ? -1 : U.calls + k; res = "set"; }
         else if (op == "mv") { t->move_construct(); res = "moved reports=" + leak_list(); }
         else if (op == "ma") { std::string w; is >> w; U.fail_at = -1; t->move_assign(w == "used"); res = "assigned reports=" + leak_list(); }
+        else if (op == "mfa") { U.fail_at = -1; res = t->assign_into_moved_from() ? "done reports=" + leak_list() : "skipped"; }
         else if (op == "sweep") { sweep("sweep"); res = "swept"; }
         else if (op == "destroy") { sweep("before-destroy"); t->destroy(); std::printf("destroy = ok |%s | leaks=%ld amounts=%s\n", U.take().c_str(), hc().leak, leak_list().c_str()); break; }
         else { std::printf("? %s\n", line.c_str()); continue; }
